@@ -18,9 +18,57 @@ URLSAFE = set(map(ord, "ABCDEFGHIJKLMNOPQRSTUVWXYZabcdefghijklmnopqrstuvwxyz0123
 ASSUMPTIONS = [
     "library contracts (nondeterministic stubs): json.loads(json.dumps(d)) == d for JSON-faithful d (string keys); zlib.decompress(zlib.compress(b)) == b; base64.b64decode(base64.b64encode(b)) == b; b64encode(b) has length 4*ceil(len(b)/3), its last (3 - len(b) % 3) % 3 characters are '=' and all others are arbitrary members of the RFC 4648 alphabet",
     "the real statements of types.encode_data / types.decode_data are executed (instrumented copy) with base64 / zlib / json replaced by these stubs; the base64 text is a SymStr whose alphabet characters are symbolic",
-    "bound: compressed payload length m = 1..M (quick 24, thorough 96): for every m all 64^k character choices are covered symbolically; the padding arithmetic is additionally proved for all m >= 0 as a linear-integer obligation",
+    "bound: compressed payload length m = 1..M (quick 96 and 1000, thorough 400 and 1000/2049/4096/8191): for every m all 64^k character choices are covered symbolically on each path (single-character replace is an if-then-else term, it does not fork); the padding arithmetic is additionally proved for all m >= 0 as a linear-integer obligation; the size of the JSON document is a symbolic integer (any size limit on the inflated text is a path condition, its model is replayed with a document of that size)",
     "domain of d: JSON-faithful dictionaries; integer keys are turned into strings by json itself (library behaviour)",
 ]
+
+
+class SymBytes:
+    """Opaque byte string: the UTF-8 bytes of ``text`` (a _JsonText), ``nbytes`` long (z3 Int, any
+    value >= the number of characters).  ``cut`` is None for the whole string or the number of leading
+    bytes that are present (a truncated copy)."""
+
+    def __init__(self, text, nbytes, cut=None):
+        self.text = text
+        self.nbytes = nbytes
+        self.cut = cut
+
+    def decode(self, encoding="utf-8", errors="strict"):
+        enc = encoding.lower().replace("-", "").replace("_", "")
+        if enc not in ("utf8",):
+            raise E.ModelGap(f"decode({encoding})")
+        return _JsonBack(self)
+
+    def __len__(self):
+        raise E.ModelGap("len() of the serialised document")
+
+    def __add__(self, o):
+        if isinstance(o, (bytes, SymBytes)) and not isinstance(o, SymBytes) and len(o) == 0:
+            return self
+        raise E.ModelGap("concatenation of byte strings")
+
+    def __radd__(self, o):
+        if isinstance(o, bytes) and len(o) == 0:
+            return self
+        raise E.ModelGap("concatenation of byte strings")
+
+
+class _JsonBack:
+    """text obtained by decoding SymBytes: what json.loads receives"""
+
+    def __init__(self, b):
+        self.b = b
+
+
+class SymCompressed:
+    """opaque result of compressing ``origin`` (SymBytes); m = its concrete length in this case"""
+
+    def __init__(self, origin, m):
+        self.origin = origin
+        self.m = m
+
+    def __len__(self):
+        return self.m
 
 
 class _B64Stub:
@@ -31,43 +79,109 @@ class _B64Stub:
         self.ctx = ctx
         self.encoded = None
         self.decode_arg = None
+        self.data = None
 
-    def b64encode(self, data):
+    def b64encode(self, data, *a, **kw):
+        if a or kw:
+            raise E.ModelGap("b64encode with altchars")
+        if not isinstance(data, (SymCompressed, bytes)):
+            raise TypeError("a bytes-like object is required")
+        self.data = data
         n = 4 * ((self.m + 2) // 3)
         p = (3 - self.m % 3) % 3
         chars = []
         for i in range(n - p):
             v = z3.Int(f"b{i}")
             self.ctx.assume(z3.Or(*[v == ord(ch) for ch in B64]))
+            e3.declare_domain(v, [ord(ch) for ch in B64])
             chars.append(v)
         chars += [ord("=")] * p
         self.encoded = e3.SymStr(chars)
         return self.encoded
 
-    def b64decode(self, s):
+    def b64decode(self, s, *a, **kw):
+        if a or kw:
+            raise E.ModelGap("b64decode with altchars / validate")
         self.decode_arg = s
-        return b"<compressed>"
+        return self.data
+
+    def __getattr__(self, name):
+        raise E.ModelGap(f"base64.{name} is outside the modelled contract")
+
+
+class _Decompressor:
+    def __init__(self, z):
+        self.z = z
+        self.unconsumed_tail = b""
+        self.unused_data = b""
+        self.eof = False
+
+    def decompress(self, data, max_length=0):
+        whole = self.z.decompress(data)
+        if not isinstance(max_length, int):
+            raise E.ModelGap("symbolic max_length")
+        if max_length <= 0:
+            self.eof = True
+            return whole
+        # contract: at most max_length bytes are returned, the rest stays in unconsumed_tail
+        if E.ctx().decide(whole.nbytes > max_length):
+            self.unconsumed_tail = _Opaque()
+            return SymBytes(whole.text, whole.nbytes, cut=max_length)
+        self.eof = True
+        return whole
+
+    def flush(self, *a):
+        if isinstance(self.unconsumed_tail, _Opaque):
+            raise E.ModelGap("flush() after a truncated decompress")
+        return b""
+
+
+class _Opaque:
+    pass
 
 
 class _Zlib:
+    MAX_WBITS = 15
+    Z_BEST_COMPRESSION = 9
+    Z_DEFAULT_COMPRESSION = -1
+    error = zlib.error
+
+    def __init__(self, m):
+        self.m = m
+
     def compress(self, b, *a, **kw):
-        if not isinstance(b, (SymBytes, bytes)):
+        if not isinstance(b, SymBytes):
             raise TypeError("a bytes-like object is required, not 'str'")
-        return b"<compressed>"
+        if b.cut is not None:
+            raise E.ModelGap("compress of a truncated document")
+        return SymCompressed(b, self.m)
 
     def decompress(self, b, *a, **kw):
-        return b'{"k": 1}'
+        if kw.get("wbits", a[0] if a else 15) not in (15, 47):
+            raise zlib.error("Error -3 while decompressing data: incorrect header check")
+        if not isinstance(b, SymCompressed):
+            raise E.ModelGap("decompress of something that is not the compressed document")
+        return b.origin
+
+    def decompressobj(self, *a, **kw):
+        if kw.get("wbits", a[0] if a else 15) not in (15, 47):
+            raise E.ModelGap("decompressobj with non-default wbits")
+        return _Decompressor(self)
+
+    def __getattr__(self, name):
+        raise E.ModelGap(f"zlib.{name} is outside the modelled contract")
 
 
 ASCII_JSON = [ord(c) for c in '{}":, \\u19afnt[]-.e']
 NON_ASCII = [0xE9, 0x4E2D, 0x1F600, 0xD83D, 0xDC00, 0x7F, 0x85]  # incl. lone surrogates: legal in a Python str
 
 
-class SymBytes:
-    """opaque result of str.encode(): only its existence matters to the stubs"""
-
-
 class _JsonText(e3.SymStr):
+    """json.dumps output: '{' + 3 symbolic characters + ... + '}' ; the characters decide encodability,
+    the UTF-8 size of the whole text is the symbolic integer ``nbytes`` (any value >= 5)"""
+
+    nbytes = None
+
     def encode(self, encoding="utf-8", errors="strict"):
         enc = encoding.lower().replace("-", "").replace("_", "")
         for ch in self.c:
@@ -80,15 +194,24 @@ class _JsonText(e3.SymStr):
                     raise UnicodeEncodeError(enc, "?", 0, 1, "ordinal not in range")
             else:
                 raise E.ModelGap(f"encoding {encoding}")
-        return SymBytes()
+        if enc != "utf8":
+            raise E.ModelGap(f"encoding {encoding}")
+        return SymBytes(self, self.nbytes)
+
+
+DOC = {"k": 1}
 
 
 class _Json:
     """json.dumps(d) for an arbitrary JSON-faithful d whose strings hold arbitrary code points:
-    with ensure_ascii=True (the default) the text is ASCII, otherwise any code point may appear."""
+    with ensure_ascii=True (the default) the text is ASCII, otherwise any code point may appear.
+    json.loads returns d exactly when it receives the complete text of dumps(d)."""
+
+    JSONDecodeError = json.JSONDecodeError
 
     def __init__(self, ctx):
         self.ctx = ctx
+        self.text = None
 
     def dumps(self, d, ensure_ascii=True, **kw):
         alpha = ASCII_JSON if ensure_ascii else ASCII_JSON + NON_ASCII
@@ -96,11 +219,25 @@ class _Json:
         for i in range(3):
             v = z3.Int(f"j{i}")
             self.ctx.assume(z3.Or(*[v == a for a in sorted(set(alpha))]))
+            e3.declare_domain(v, alpha)
             cs.append(v)
-        return _JsonText([ord("{")] + cs + [ord("}")])
+        t = _JsonText([ord("{")] + cs + [ord("}")])
+        t.nbytes = z3.Int("nbytes")
+        self.ctx.assume(t.nbytes >= 5)
+        self.text = t
+        return t
 
     def loads(self, s, **kw):
-        return {"k": 1}
+        if isinstance(s, SymBytes):
+            s = _JsonBack(s)
+        if not isinstance(s, _JsonBack) or s.b.text is not self.text:
+            raise E.ModelGap("json.loads of something that is not the serialised document")
+        if s.b.cut is not None:
+            raise json.JSONDecodeError("Unterminated string (document truncated)", "", 0)
+        return dict(DOC)
+
+    def __getattr__(self, name):
+        raise E.ModelGap(f"json.{name} is outside the modelled contract")
 
 
 def load_types_copy(b64, zl, js):
@@ -112,8 +249,9 @@ def load_types_copy(b64, zl, js):
     return mod, saved
 
 
-def task(m):
-    out = dict(m=m, status="ok", problems=[], paths=0)
+def task(spec):
+    m, tier_budget = spec
+    out = dict(m=m, status="ok", problems=[], paths=0, queries=0)
     import sys
 
     mod = E.load_instrumented("types")
@@ -122,66 +260,132 @@ def task(m):
         c = E.ctx()
         stub = _B64Stub(m, c)
         saved = {k: sys.modules.get(k) for k in ("base64", "json", "zlib")}
-        sys.modules["base64"], sys.modules["zlib"], sys.modules["json"] = stub, _Zlib(), _Json(c)
+        sys.modules["base64"], sys.modules["zlib"], sys.modules["json"] = stub, _Zlib(m), _Json(c)
         try:
-            enc = mod.encode_data({"k": 1})
+            enc = mod.encode_data(dict(DOC))
             dec = mod.decode_data(enc)
         finally:
             for k, v in saved.items():
                 sys.modules[k] = v
         return stub, enc, dec
 
-    paths, c = E.explore(fn, max_paths=64)
+    sym.set_deadline(float(tier_budget))
+    try:
+        paths, c = E.explore(fn, max_paths=64)
+    except sym.TaskTimeout:
+        out["status"] = "timeout"
+        return out
+    finally:
+        sym.set_deadline(None)
+    sym.set_deadline(float(tier_budget))
+    try:
+        return _judge(out, paths, c)
+    except sym.TaskTimeout:
+        out["status"] = "timeout"
+        return out
+    finally:
+        sym.set_deadline(None)
+
+
+def _judge(out, paths, c):
+    m = out["m"]
     out["paths"] = len(paths)
     out["queries"] = c.stats.queries
     for pc, outcome, asserts in paths:
+        if outcome[0] == "gap":
+            out.setdefault("gaps", []).append(str(outcome[1]))
+            continue
         if outcome[0] != "value":
-            pr = dict(kind=outcome[0], detail=f"{type(outcome[1]).__name__}: {outcome[1]}" if outcome[0] == "raise" else str(outcome[1]))
-            if outcome[0] == "raise":
-                # replay: a dictionary whose text holds the offending code points
-                s_ = z3.Solver()
-                s_.add(*asserts)
-                if str(s_.check()) == "sat":
-                    m_ = s_.model()
-                    txt = "".join(chr(m_.eval(z3.Int(f"j{i}"), model_completion=True).as_long()) for i in range(3))
-                    from stationeers_pytrapic.types import decode_data as _dd, encode_data as _ed
+            pr = dict(kind=outcome[0], detail=f"{type(outcome[1]).__name__}: {outcome[1]}")
+            # replay: a dictionary whose text holds the offending code points and has the offending size
+            s_ = z3.Solver()
+            s_.add(*asserts)
+            if str(s_.check()) != "sat":
+                continue
+            m_ = s_.model()
+            txt = "".join(chr(m_.eval(z3.Int(f"j{i}"), model_completion=True).as_long()) for i in range(3))
+            nb = m_.eval(z3.Int("nbytes"), model_completion=True).as_long()
+            from stationeers_pytrapic.types import decode_data as _dd, encode_data as _ed
 
-                    doc = {"code": txt}
-                    try:
-                        ok = _dd(_ed(doc)) == doc
-                        if ok:
-                            continue  # does not replay
-                        pr["replayed"] = f"decode_data(encode_data({doc!r})) differs"
-                    except Exception as ex:
-                        pr["replayed"] = f"encode/decode of {doc!r} raises {type(ex).__name__}: {ex}"
+            reproduced = False
+            for doc in ({"code": txt}, {"code": txt + "a" * nb}, {"code": txt + "".join(chr(33 + (i * 7919) % 90) for i in range(nb))}):
+                try:
+                    if _dd(_ed(doc)) != doc:
+                        pr["replayed"] = f"decode_data(encode_data(d)) differs for a document of {len(json.dumps(doc))} JSON bytes"
+                        reproduced = True
+                except Exception as ex:
+                    pr["replayed"] = f"encode/decode of a document of {len(json.dumps(doc))} JSON bytes ({doc['code'][:12]!r}...) raises {type(ex).__name__}: {str(ex)[:80]}"
+                    reproduced = True
+                if reproduced:
+                    pr["doc"] = doc
+                    break
+            if not reproduced:
+                out.setdefault("not_replayed", []).append(pr["detail"])
+                continue
+            pr["detail"] += " | " + pr["replayed"]
             out["problems"].append(pr)
             continue
         stub, enc, dec = outcome[1]
         s = z3.Solver()
         s.add(*asserts)
+        # Both obligations are discharged position by position: each output character depends on one
+        # symbol, so the query "this position can be wrong" needs only that symbol's alphabet
+        # constraint (a sub-set of the path's assertions: unsat there is unsat on the path); a sat
+        # answer is re-checked under the full path condition before it counts.
+        def position_queries(formulas):
+            nq = 0
+            for f in formulas:
+                sym.check_deadline()
+                if z3.is_false(f):
+                    continue
+                small = z3.Solver()
+                for v in _vars(f):
+                    d = e3.dom(v)
+                    if d is not None:
+                        small.add(z3.Or(*[v == k for k in sorted(d)]))
+                small.add(f)
+                nq += 1
+                if str(small.check()) == "unsat":
+                    continue
+                s.push()
+                s.add(f)
+                r_ = str(s.check())
+                nq += 1
+                mt = _model_text(s, stub.encoded) if r_ == "sat" else r_
+                s.pop()
+                if r_ != "unsat":
+                    return r_, mt, nq
+            return "unsat", None, nq
+
         # (iii) every character of the link is URL safe
-        bad = [ch for ch in enc.c]
-        cond = z3.Or(*[z3.And(*[ch != u for u in URLSAFE]) if not isinstance(ch, int) else z3.BoolVal(ch not in URLSAFE) for ch in bad]) if bad else z3.BoolVal(False)
-        s.push()
-        s.add(cond)
-        r = str(s.check())
+        r, mt, nq = position_queries([z3.simplify(z3.And(*[ch != u for u in sorted(URLSAFE)])) if not isinstance(ch, int) else z3.BoolVal(ch not in URLSAFE) for ch in enc.c])
+        out["queries"] += nq
         if r != "unsat":
-            out["problems"].append(dict(kind="not_url_safe", detail=_model_text(s, enc) if r == "sat" else r))
-        s.pop()
+            out["problems"].append(dict(kind="not_url_safe", detail=mt))
         # (i)+(ii) what reaches b64decode is exactly what b64encode produced
         a, b = stub.decode_arg, stub.encoded
-        if a is None or len(a) != len(b):
+        if a is None or not isinstance(a, e3.SymStr) or len(a) != len(b):
             out["problems"].append(dict(kind="length_changed", detail=f"b64decode gets {len(a) if a is not None else None} chars, b64encode gave {len(b)}"))
             continue
-        diff = z3.Or(*[(x != y) if not (isinstance(x, int) and isinstance(y, int)) else z3.BoolVal(x != y) for x, y in zip(a.c, b.c)])
-        s.push()
-        s.add(diff)
-        r = str(s.check())
+        r, mt, nq = position_queries([(x != y) if not (isinstance(x, int) and isinstance(y, int)) else z3.BoolVal(x != y) for x, y in zip(a.c, b.c)])
+        out["queries"] += nq
         if r != "unsat":
-            out["problems"].append(dict(kind="text_changed", detail=_model_text(s, b) if r == "sat" else r))
-        s.pop()
-        if dec != {"k": 1}:
+            out["problems"].append(dict(kind="text_changed", detail=mt))
+        if dec != DOC:
             out["problems"].append(dict(kind="value_changed", detail=repr(dec)))
+    return out
+
+
+def _vars(f):
+    seen, out, todo = set(), [], [f]
+    while todo:
+        t = todo.pop()
+        if t.get_id() in seen:
+            continue
+        seen.add(t.get_id())
+        if z3.is_const(t) and t.decl().kind() == z3.Z3_OP_UNINTERPRETED:
+            out.append(t)
+        todo.extend(t.children())
     return out
 
 
@@ -215,6 +419,9 @@ def concrete_roundtrip(rep):
     for n in range(0, 40):
         docs.append({"code": "ab" * n, "options": {"compact": bool(n % 2)}})
     docs += [{"code": "ü \x00\"\\"}, {"a": [1, 2.5, None, True], "b": {"c": "d"}}, {}]
+    # large documents (long sources, incompressible text, many modules, non-latin text)
+    docs += [{"code": "x = 1\n" * 20000}, {"code": "".join(chr(33 + (i * 7919 + i // 7) % 90) for i in range(150000))},
+             {"modules": {f"m{i}": ("def f():\n    return %d\n" % i) * 120 for i in range(40)}}, {"code": "# \u4e2d\u6587\n" * 9000}]
     for d in docs:
         try:
             e = encode_data(d)
@@ -235,29 +442,49 @@ def concrete_roundtrip(rep):
 def run(tier: str) -> int:
     rep = harness.Report(PROP, tier, "model_checking")
     rep.assumptions = ASSUMPTIONS
-    M = 96 if tier == "thorough" else 24
-    results = harness.pmap(task, list(range(1, M + 1)), placeholder=lambda it, st, d: dict(m=it, status=st, problems=[], paths=0, queries=0))
+    M = 400 if tier == "thorough" else 96
+    extra = [1000, 2049, 4096, 8191] if tier == "thorough" else [1000]
+    budget = 900 if tier == "thorough" else 150
+    results = harness.pmap(task, [(m, budget) for m in list(range(1, M + 1)) + extra], placeholder=lambda it, st, d: dict(m=it[0], status=st, problems=[], paths=0, queries=0))
+    seen = {}
     for r in results:
         for pr in r["problems"]:
+            key = (pr["kind"], str(pr["detail"])[:60])
+            seen.setdefault(key, []).append(r["m"])
+            if len(seen[key]) > 1:
+                continue  # the same defect at another payload length: reported once
             path = e1.save_replay(PROP, dict(property=PROP, kind="share_link", m=r["m"], problem=pr))
             rep.violation(f"compressed length {r['m']}: {pr['kind']}: {pr['detail']}", path)
+    slow = [r["m"] for r in results if r["status"] != "ok"]
+    if slow:
+        rep.notes.append(f"note: payload lengths {slow[:8]}{'...' if len(slow) > 8 else ''} inconclusive (time budget of {budget} s per length exhausted)")
+    if len(slow) > len(results) // 2:
+        rep.harness_errors.append("more than half of the payload lengths were inconclusive")
+    gaps = sorted({g for r in results for g in r.get("gaps", [])})
+    for g in gaps:
+        rep.notes.append(f"note: inconclusive path (outside the modelled library contracts): {g}")
+    notrep = sorted({g for r in results for g in r.get("not_replayed", [])})
+    for g in notrep:
+        rep.notes.append(f"note: a path of the model raises but does not reproduce on the real functions: {g}")
     pr_, wit = padding_obligation()
     if pr_ != "unsat":
         rep.harness_errors.append(f"padding arithmetic model disagrees (m={wit}): {pr_}")
     n_docs, bad = concrete_roundtrip(rep)
     for kind, d in bad:
         path = e1.save_replay(PROP, dict(property=PROP, kind="concrete", problem=kind, doc=d))
-        rep.violation(f"concrete dictionary {d!r}: {kind}", path)
+        rep.violation(f"concrete dictionary {repr(d)[:160]} ({len(json.dumps(d))} JSON bytes): {kind}", path)
     rep.coverage = dict(
         states=sum(4 * ((r["m"] + 2) // 3) for r in results),
         transitions=sum(r["paths"] for r in results),
         traces_validated_against_impl=n_docs,
         samples=[dict(m=results[0]["m"], paths=results[0]["paths"]), dict(m=results[-1]["m"], paths=results[-1]["paths"])],
         explanation="states = symbolic base64 characters covered (sum over payload lengths); transitions = explored paths of encode_data+decode_data; each path: z3 proves (a) all output characters URL-safe, (b) the text reaching b64decode equals the text b64encode produced",
-        payload_lengths=f"1..{M}",
+        payload_lengths=f"1..{M} and {extra}",
         padding_for_all_lengths=pr_,
         functions_encoded=["types.encode_data", "types.decode_data"],
-        queries=sum(r.get("queries", 0) for r in results) + 2 * sum(r["paths"] for r in results) + 1,
+        inconclusive_paths=gaps,
+        document_size="symbolic integer nbytes >= 5 (UTF-8 size of the JSON text): any truncation / size limit on the inflated document is a path",
+        queries=sum(r.get("queries", 0) for r in results) + 1,
         exhaustive=False,
     )
     return rep.finish()
